@@ -5,7 +5,7 @@ reaches pool states only through the real operations."""
 import re
 
 from .core import Undecided
-from .extract import extract_function, extract_block, rewrite
+from .extract import extract_function, extract_block, rewrite, extract_local_helpers
 
 W = r'\s*'
 POOL_CPP = 'src/occa/internal/core/memoryPool.cpp'
@@ -186,7 +186,12 @@ def build_unit(ctx):
     body = mb.group(1).strip()
     body2, n = re.subn(r'(?<![\w>.])(ptr|offset)\b', r'm->\1', body)
     mctor.rules.append(('flattening: derived constructor body applied to the new object (implicit this -> m->)', n))
-    real = '\n\n'.join(parts)
+    helpers = []
+    for rel in (POOL_CPP, SER_POOL):
+        for h in extract_local_helpers(ctx, rel):
+            fns.append(h)
+            helpers.append(h.text)
+    real = '\n\n'.join(helpers + parts)
     real, n = re.subn(r'\bnullptr\b', '0', real)
     real, n = re.subn(r'\bdelete\s+([A-Za-z_]\w*)\s*;', r'verif_delete(\1);', real)
     if n < 3:
